@@ -1,4 +1,7 @@
 EXPECTED_DECODER_SITES = [
+    "NewDecoder: return &Decoder{r: r, offset: 0}",
+    "MustDecodeOpt: return resp, -1, err",
+    "MustDecodeOpt: return resp, d.offset, nil",
     "decodeResp: read UnreadByte",
     "decodeType: d.offset++",
     "decodeType: read ReadByte",
@@ -19,11 +22,23 @@ EXPECTED_DECODER_USERS = [
     "syncer/output.go:parseAofCommand:NewDecoder",
 ]
 
+# distinct forms (every use of the variable bound to MustDecodeOpt's offset must be one of these)
 EXPECTED_OFFSET_USES = [
     "cmd/aof.go:Cmd:arg of log.Info",
     "syncer/bisync.go:parseAofReplayUnits:startOffset + incrOffset",
     "syncer/output.go:parseAofCommand:startOffset + incrOffset",
-    "syncer/output.go:parseAofCommand:startOffset + incrOffset",
+]
+
+# textual tie only: how endOffset (= startOffset + incrOffset) becomes unit boundaries on the
+# bidirectional path; the resulting offsets are checked on the real parser by C13
+EXPECTED_BISYNC_FLOW = [
+    "endOffset := startOffset + incrOffset",
+    "makeCmd(.., endOffset)",
+    "prevOffset = endOffset",
+    "prevOffset = startOffset",
+    "txnStart = prevOffset",
+    "unit(prevOffset, endOffset)",
+    "unit(txnStart, endOffset)",
 ]
 
 
@@ -39,6 +54,10 @@ PROP = {
         "GunYu.Props.C12.boundaries_getElem?",
         "GunYu.Props.C12.decodeAll_offsets",
         "GunYu.Props.C12.decodeAll_prefix",
+        "GunYu.Props.C12.decodeOne_truncated",
+        "GunYu.Props.C12.decodeAll_truncated",
+        "GunYu.Props.C12.decodeAllFrom_offsets",
+        "GunYu.Props.C12.decodeAll_offsets_int64",
         "GunYu.Props.C12.writeArgs_eq_encodeCmd",
         "GunYu.Props.C12.decode_writeArgs",
         "GunYu.Props.C12.decodeResp_offset_exact",
@@ -48,6 +67,7 @@ PROP = {
         "c12_decoder_users": EXPECTED_DECODER_USERS,
         "c12_offset_uses": EXPECTED_OFFSET_USES,
         "c12_start_offset_reassigned": [],
+        "c12_bisync_offset_flow": EXPECTED_BISYNC_FLOW,
     },
     "harness": [{"name": "C12", "pkg": "./pkg/redis/client/", "test": "TestVerifC12",
                  "timeout_quick": "10m", "timeout_thorough": "40m"}],
@@ -60,8 +80,12 @@ PROP = {
             "generated streams. Each stream is read by the real client.Decoder (NewDecoder, MustDecodeOpt, ParseArgs, "
             "offset = start + incrOffset as in syncer.parseAofCommand) through bufio sizes 16 … 1 MiB over a reader that returns "
             "1 … k bytes per call (k = 1 … 2^30), 3 (thorough 6) configurations per stream which must agree line by line; the first "
-            "is diffed with the Lean model (decodeAll). proto.Writer.WriteArgs (all integer widths, bool, nil, string, []byte, "
-            "net.IP, Duration, one multi-MiB []byte) and client.Encode outputs are diffed with writeArgs / encodeCmd and decoded "
+            "is diffed with the Lean model (decodeAllFrom). For a quarter of the streams Decoder.offset is preset (in-package) to "
+            "2^31-3, 2^32-3, 2^53-3 or 2^62 before the first read, so that the int64 MustDecodeOpt returns is exercised across those "
+            "boundaries (monitor: offset == start + preset + bytes consumed). proto.Writer.WriteArgs (all integer widths, bool, nil, "
+            "string, []byte, net.IP, Duration, float64/float32 incl. 0.1, 1e21, 5e-324, ±Inf, -0, 2^53±1, float32-unrepresentable "
+            "values and random bit patterns — wire text must equal FormatFloat(f,'f',-1,64) and ParseFloat(text) must be bit-identical "
+            "to f —, one multi-MiB []byte) and client.Encode outputs are diffed with writeArgs / encodeCmd and decoded "
             "again by the real decoder and by the model. Monitor (independent strict RESP oracle in the harness): decoded name "
             "and argument bytes == bytes sent, offset == start + bytes up to and including the command, clean io.EOF at the end. "
             "distinct_nontrivial = distinct well-formed streams with more than one command or more than 128 bytes. "
@@ -74,15 +98,33 @@ PROP = {
     ],
     "assumptions": [
         "decoder model (decodeType/decodeText/decodeInt/decodeBulk/decodeArray/inline/ParseArgs) is hand-written and tied by "
-        "correspondence; read sites and `d.offset` updates of decoder.go, the users of the decoder and every use of incrOffset "
-        "(`startOffset + incrOffset`, startOffset never reassigned) are re-extracted each run and compared with the expected lists",
-        "WF: argument and argument-list lengths below 2^63 (true of every Go slice) and a non-empty command name",
-        "command names are ASCII: strings.ToLower's Unicode path (non-ASCII / invalid UTF-8 names) is not modelled; arguments are arbitrary bytes",
+        "correspondence; read sites, `d.offset` updates and the return statements of MustDecodeOpt/NewDecoder in decoder.go, the users "
+        "of the decoder (any package alias, in-package callers) and every use of incrOffset (`startOffset + incrOffset`, startOffset "
+        "never reassigned) are re-extracted each run and compared with the expected lists",
+        "DEPENDENCIES — C12 runs the decoder, ParseArgs, Encode and WriteArgs, not the parser loops around them. That the real "
+        "syncer.parseAofCommand keeps each command's arguments intact while it decodes on (the `data` slice / sendBuf) and attaches "
+        "startOffset+incrOffset to the right command is checked on the real loop by C01/C02 (sender harness); that "
+        "syncer.parseAofReplayUnits turns endOffset/prevOffset/txnStart into correct unit boundaries is checked by C13. C12 only "
+        "ties those call sites textually (c12_offset_uses, c12_bisync_offset_flow). The start offset passed in by the callers is C06/C16.",
+        "offsets are natural numbers in the model; Go computes them in int64. decodeAll_offsets_int64 shows every reported offset is "
+        "below 2^63 when the end of the stream is, so no wrap-around is needed; a narrowing inside the decoder or MustDecodeOpt is "
+        "searched for by the preset-offset streams (2^31, 2^32, 2^53, 2^62), not proved absent for all counter values",
+        "WF: argument and argument-list lengths below 2^63 (true of every Go slice), a non-empty and ASCII command name. "
+        "strings.ToLower's Unicode path (non-ASCII / invalid UTF-8 names are rewritten by Go) is not modelled and not generated; "
+        "arguments are arbitrary bytes",
+        "error classes: io.EOF inside a header or length line (ReadBytes returns the partial line + io.EOF) is the same class `eof` as a "
+        "clean end of stream, in the code and in the model; only a cut inside a bulk payload gives ErrUnexpectedEOF. "
+        "decodeAll_truncated shows complete commands are unaffected; properties that reason about a 'clean EOF' (C04/C05) must not "
+        "read `eof` as 'ended on a command boundary'",
+        "float arguments DO reach WriteArgs: zset scores on the snapshot path (rdb_object.go ZSetParser.ExecCmd → Send/Do → "
+        "Writer.float). The model carries a float as the text strconv.AppendFloat(f,'f',-1,64) produces and proves the framing of that "
+        "text; the digits are trusted to strconv and checked on the real writer by the harness (text == FormatFloat, ParseFloat(text) "
+        "bit-identical). time.Time and BinaryMarshaler arguments are not used by the tool and not modelled",
         "observation, outside the quantifier (multi-bulk only): an inline command's first byte is counted twice "
         "(decodeType counts it, UnreadByte, then the whole line is counted) — model transcribes it, example in Props/C12.lean",
         "observation, outside C12: the decoder allocates `$n`/`*n` without an upper bound, so a corrupt length can panic or exhaust "
         "memory instead of returning an error; the malformed-stream generator avoids 7-19 digit lengths",
-        "floats, time.Time and BinaryMarshaler arguments of WriteArgs are not modelled (not used on the replay path)",
+        "observation: bisyncAofCommand.EndOffset (set by makeCmd in parseAofReplayUnits) is never read — dead field",
     ],
     "partial": [],
 }
@@ -91,7 +133,8 @@ MANIFEST = {
     "text": "Lean theorems over ALL argument lists / command sequences / start offsets / trailing bytes: the model of client.Decoder + ParseArgs "
             "applied to the RESP encoding of any command returns exactly the sent argument bytes, an offset equal to the encoded length and "
             "leaves the rest unread (also after LF keep-alives); the parser loop reports offsets equal to the stream boundaries and ends with EOF; "
-            "a damaged tail does not disturb the completely received prefix; WriteArgs framing decodes back to the same arguments; for every "
+            "a damaged tail does not disturb the completely received prefix and a stream cut inside a command reports exactly the complete "
+            "commands and then EOF/ErrUnexpectedEOF (nothing invented); a decoder whose counter is preset keeps exact offsets; WriteArgs framing decodes back to the same arguments; for every "
             "accepted typed value (canonical or not, nested or not) the counter advances by exactly the bytes consumed. The hand-written decoder "
             "model is tied to the Go code by differential correspondence through many bufio sizes and read fragmentations, plus extracted "
             "read-site / offset-arithmetic facts.",
